@@ -151,10 +151,7 @@ def check(run):
             jp = P.javadoc_pos()
         except acteval.Unsupported:
             pass
-        if jp is not None and P.rhs:
-            res, m = sat(P, jp != P.s[0]); nq += 1
-            if res == z3.sat:
-                viol.setdefault('doc-scan-start:%s' % lhs, []).append({'production': rhs, 'layout': layout_of(P, m)})
+        # (the doc-scan start, G5, is C18's obligation: c04.docscan_obligation)
         if lhs == 'Method':
             if 'ONEWAY' in P.rhs and 'oneway_range' in by:
                 i = P.rhs.index('ONEWAY')
@@ -326,10 +323,14 @@ def parse_error_obligation(run):
         prog = mir.Program(mir.dump_mir())
         import c03
         ok, detail, nq = c03.from_parse_error_total(prog)
+        nn, nbad = native.sweep_error_tokens()
+        run.validated += nn
         if ok:
             run.holds('every non-User parse error becomes Some(Error diagnostic) without panicking paths (from_parse_error, all variants)', 'M', queries=nq)
+            if nbad:
+                run.inconclusive('native sweep of long / multi-byte offending tokens', 'replay', 'discrepancy not explained by a solver verdict: %s' % str(nbad[0])[:300])
         else:
-            run.violated('parse failures become diagnostics', 'M', 'from_parse_error:' + detail[0][:60], {'detail': detail}, True, queries=nq)
+            run.violated('parse failures become diagnostics', 'M', 'from_parse_error:' + detail[0][:60], {'detail': detail, 'native': nbad[:2]}, bool(nbad), queries=nq)
     except mir.Unsupported as e:
         run.inconclusive('from_parse_error', 'M', str(e))
 
